@@ -537,6 +537,7 @@ class Node:
             self._open_peer_connection(peer)
 
     def _open_peer_connection(self, peer: Peer):
+        connected = False
         if peer.connection:
             self.logger.warning(
                 f"a connection to {peer.node_name} exists already")
@@ -568,7 +569,7 @@ class Node:
                     return
                 self.logger.warning(f"{conn} socket not yet ready, waiting")
             else:
-                conn.state = PEER_CONNECTED
+                connected = self._flag_peer_as_connected(conn)
                 self.logger.info(f"{conn} socket is now connected")
 
             conn.host_ip_address = [peer_socket.getsockname()[0]]
@@ -595,12 +596,12 @@ class Node:
                     return
                 self.logger.warning(f"{conn} socket not yet ready, waiting")
             else:
-                conn.state = PEER_CONNECTED
+                connected = self._flag_peer_as_connected(conn)
                 self.logger.info(f"{conn} socket is now connected")
 
             conn.host_ip_address = [peer_socket.getsockname()[0]]
 
-        if conn.state == PEER_CONNECTED:
+        if connected:
             self.send_cer(conn)
         else:
             conn.demand_attention()
@@ -613,18 +614,24 @@ class Node:
         else:
             return None
 
-    def _flag_peer_as_connected(self, conn: PeerConnection):
-        # the wait for the CEA starts now, not when the connection attempt
-        # was started
-        conn.reset_last_read()
-        conn.reset_ce_wait()
-        conn.state = PEER_CONNECTED
+    def _flag_peer_as_connected(self, conn: PeerConnection) -> bool:
+        # the thread that dials and the connection thread can both find that
+        # the connect has completed; the one that gets here first sends the CER
+        with conn.state_lock:
+            if conn.state != PEER_CONNECTING:
+                return False
+            # the wait for the CEA starts now, not when the connection
+            # attempt was started
+            conn.reset_last_read()
+            conn.reset_ce_wait()
+            conn.state = PEER_CONNECTED
         peer = self._find_connection_peer(conn)
         if peer:
             peer.last_connect = int(time.time())
 
         self.connection_logger.info(
             f"{conn} is now connected, waiting CER/CEA to complete")
+        return True
 
     def _flag_connection_as_ready(self, conn: PeerConnection):
         with self._ready_lock:
@@ -801,8 +808,11 @@ class Node:
                     socket_error = wsock.getsockopt(
                         socket.SOL_SOCKET, socket.SO_ERROR)
                     if socket_error == 0:
-                        self._flag_peer_as_connected(conn)
-                        self.send_cer(conn)
+                        if not conn.host_ip_address:
+                            # the dialling thread has not got round to it yet
+                            conn.host_ip_address = [wsock.getsockname()[0]]
+                        if self._flag_peer_as_connected(conn):
+                            self.send_cer(conn)
                     else:
                         self.connection_logger.warning(
                             f"{conn} connection socket has permanently failed "
